@@ -312,121 +312,92 @@ U = uint_()
 F = flt()
 
 # ---- sequences of 2-5 parts, unit parsers in every position
-fx('seq2/cc', A >> A, ['a~b'], n=2)
+fx('seq2/cc', A >> A, ['a~b'])
 fx('seq2/uc', c >> A, [',~a'])
 fx('seq2/cu', A >> c, ['b~,'])
 fx('seq2/uu', c >> c, [',~,'])
 fx('seq3/ccc', A >> A >> A, ['a~b~a', 'b~b~a'], n=2)
-fx('seq3/ucc', c >> A >> A, [',~a~b'])
-fx('seq3/cuc', A >> c >> A, ['a~,~b'], n=2)
+fx('seq3/cuc', A >> c >> A, ['a~,~b'])
 fx('seq3/ccu', A >> A >> c, ['a~b~,'])
-fx('seq3/ucu', c >> A >> c, [',~b~,'])
 fx('seq3/cuu', A >> c >> c, ['a~,~,'])
-fx('seq3/uuc', c >> c >> A, [',~,~b'])
-fx('seq4/cccc', A >> A >> A >> A, ['a~b~b~a', 'b~a~a~a'], n=2)
+fx('seq4/cccc', A >> A >> A >> A, ['a~b~b~a', 'b~a~a~a'])
 fx('seq4/cucu', A >> c >> A >> c, ['a~,~b~,'])
-fx('seq4/uccu', c >> A >> A >> c, [',~a~b~,'])
 fx('seq4/cuuc', A >> c >> c >> A, ['a~,~,~b'])
-fx('seq4/ccuc', A >> A >> c >> A, ['a~b~,~a'])
-fx('seq5/ccccc', A >> A >> A >> A >> A, ['a~b~b~a~b', 'b~a~a~a~b'], n=2)
+fx('seq5/ccccc', A >> A >> A >> A >> A, ['a~b~b~a~b', 'b~a~a~a~b'])
 fx('seq5/cucuc', A >> c >> A >> c >> A, ['a~,~b~,~a'], n=2)
 fx('seq5/ucccu', c >> A >> A >> A >> c, [',~a~b~b~,'])
 fx('seq5/ucucu', c >> A >> c >> A >> c, [',~a~,~b~,'])
-fx('seq5/ccucc', A >> A >> c >> A >> A, ['a~b~,~b~a'])
 fx('seq5/eps', eps() >> A >> eps() >> A >> eps(), ['a~b', 'b~~a'])
 # ---- nested sequences, left- and right-nested
-fx('nest3/right', A >> (A >> A), ['a~b~a'])
-fx('nest4/right', A >> (A >> (A >> A)), ['a~b~b~a'], n=2)
+fx('nest4/right', A >> (A >> (A >> A)), ['a~b~b~a'])
 fx('nest4/pairs', (A >> A) >> (A >> A), ['a~b~b~a'])
-fx('nest4/mid', A >> (A >> A) >> A, ['b~a~b~a'])
 fx('nest5/right-units', c >> (A >> (c >> (A >> c))), [',~a~,~b~,'])
 fx('nest4/unit-groups', A >> (c >> A) >> (A >> c), ['a~,~b~a~,'])
 fx('nest3/unit-group-in-the-middle', A >> (c >> c) >> A, ['a~,~,~b'])
-fx('nest5/right', A >> (A >> (A >> (A >> A))), ['a~b~a~a~b'])
 # ---- sequences of different result types
 fx('het3/cic', A >> I >> A, ['a~12~b', 'b~-1~a'])
-fx('het5/iuiui', I >> c >> I >> c >> I, ['1~,~-2~,~12'], n=2)
-fx('het4/ucic', U >> A >> I >> A, ['12~a~-1~b'])
+fx('het5/iuiui', I >> c >> I >> c >> I, ['1~,~-2~,~12'])
 fx('het3/strings', s_('ab') >> A >> s_('ba'), ['ab~a~ba'])
 fx('het2/float-int', F >> c >> I, ['1.5~,~2', '-2.25~,~-1'])
-fx('het5/ciuuc', A >> I >> c >> U >> A, ['a~-1~,~2~b'])
-fx('het3/long-uint', L >> c >> U >> c >> L, ['-12~,~2~,~1'])
 
 # ---- alternatives of 2-4 branches, equal and different result types
-fx('alt2/same', a | b, ['a', 'b'], n=2)
+fx('alt2/same', a | b, ['a', 'b'])
 fx('alt2/char-int', a | I, ['a', '-12'], n=2)
-fx('alt2/int-char', I | a, ['a', '12'])
-fx('alt3/char-int-char', a | I | b, ['a', '2', 'b'], n=2)
+fx('alt3/char-int-char', a | I | b, ['a', '2', 'b'])
 fx('alt4/different', lit('i') >> I | lit('u') >> U | lit('f') >> F | a, ['i~-1', 'u~2', 'f~1.5', 'a'],
-   alphabet=['i', 'u', 'f', 'a', '1', '-', '.5'], n=2)
+   alphabet=['i', 'u', 'f', 'a', '1', '-', '.5'])
 fx('alt2/units', lit('a') | lit(','), ['a', ','])
-fx('alt4/nested-both-sides', (a | I) | (lit('u') >> U | +b), ['a', '-1', 'u~2', 'bbb'], n=2)
 fx('alt2/tuples-same', a >> a | b >> b, ['a~a', 'b~b'])
 fx('alt2/tuple-char', a >> b | a, ['a~b', 'a'])
-fx('alt2/prefix', a | a >> b, ['a', 'a~b'])
 fx('alt3/convertible-numbers', lit('i') >> I | lit('l') >> L | lit('u') >> U, ['i~-1', 'l~12', 'u~2'], n=2)
-fx('alt3/repeated-type', lit('y') >> a | I | lit('x') >> b, ['y~a', '12', 'x~b'], n=2)
+fx('alt3/repeated-type', lit('y') >> a | I | lit('x') >> b, ['y~a', '12', 'x~b'])
 fx('alt3/containers', lit('o') >> -a | lit('v') >> rep(a >> b) | lit('s') >> +a, ['o', 'o~a', 'v~a~b~a~b', 's~a~a'])
 fx('alt2/unit-char', lit('a') | b, ['a', 'b'])
-fx('alt4/same', a | b | cs(',') | cs('x'), ['a', 'b', ',', 'x'])
-fx('alt2/convert_if-int-long', convif('even', I) | L, ['2', '1', '-12'], n=2)
-fx('alt3/right-nested', a | (I | lit('u') >> U), ['a', '1', 'u~2'], n=2)
-fx('alt4/variant-variant', (a | I) | (lit('u') >> U | b), ['a', '1', 'u~2', 'b'], n=2)
+fx('alt2/convert_if-int-long', convif('even', I) | L, ['2', '1', '-12'])
+fx('alt3/right-nested', a | (I | lit('u') >> U), ['a', '1', 'u~2'])
+fx('alt4/variant-variant', (a | I) | (lit('u') >> U | b), ['a', '1', 'u~2', 'b'])
 
 # ---- alternatives inside sequences and vice versa
 fx('mix/alt-then-char', (a | I) >> b, ['a~b', '12~b'])
-fx('mix/char-alt-char', a >> (b | I) >> a, ['a~b~a', 'a~-1~a'])
 fx('mix/alt-of-sequences', a >> b | I >> c >> I, ['a~b', '1~,~2'])
-fx('mix/three-alts', (a | b) >> (a | b) >> (a | b), ['a~b~a'])
 fx('mix/literals-around-alts', lit('x') >> (A | I) >> lit('x') >> (U | A), ['x~a~x~2', 'x~1~x~b'])
-fx('mix/alt-pairs', (a >> I | I >> a) >> c >> (a >> I | I >> a), ['a~1~,~2~a', '1~a~,~a~2'])
 
 # ---- repetition / optional, also of tuples
-fx('rep/star-char', rep(A), ['', 'a~b~a'], n=2)
+fx('rep/star-char', rep(A), ['', 'a~b~a'])
 fx('rep/star-pair', rep(A >> A), ['', 'a~b~b~a', 'a~b~b~a~a~a'], n=2)
 fx('rep/star-char-unit', rep(A >> c), ['a~,~b~,'])
-fx('rep/plus-char', +A, ['a', 'a~b~a'], n=2)
+fx('rep/plus-char', +A, ['a', 'a~b~a'])
 fx('rep/plus-int-unit', +(I >> c), ['1~,~-2~,', '12~,~1~,~2~,'])
 fx('rep/opt-pair-char', -(A >> A) >> A, ['a~b~a', 'a'])
 fx('rep/opt-opt-char', -a >> -b >> A, ['a~b~a', 'b', 'a~a', 'b~a'])
 fx('rep/star-triple', rep(A >> I >> A), ['a~1~b~b~-2~a', 'a~1~b~b~2~a~a~12~a'])
 fx('rep/units', rep(lit('a')) >> -lit(','), ['a~a~a~,', 'a', ','])
 fx('rep/star-variant', rep(a | I), ['a~1~a', '-1~a~2'], alphabet=['a', '1', '-', 'x'])
-fx('rep/star-optional-pair', rep(-a >> b), ['a~b~b~a~b'])
 fx('rep/plus-struct', +as_struct(st('st2', CH, CH), 'st2', A >> A), ['a~b', 'a~b~b~a~a~a'])
-fx('rep/star-nested', rep(rep(a) >> b), ['a~a~b~b~a~b'])
-fx('rep/opt-opt', -(-a) >> b, ['a~b', 'b'])
 fx('rep/not', not_(lit('a')) >> A >> not_(lit('b')), ['b', 'b~a'])
-fx('rep/plus-plus', +(+a >> c), ['a~a~,~a~,'])
 fx('rep/opt-of-star-triple', -(rep(A >> c >> A) >> lit(';')) >> A, ['a~,~b~b~,~a~;~a', 'a', ';~b'])
 
 # ---- separator / list, also of tuples
-fx('list/separator-char', sep(A, c), ['', 'a', 'a~,~b~,~a'], n=2)
+fx('list/separator-char', sep(A, c), ['', 'a', 'a~,~b~,~a'])
 fx('list/separator-pair', sep(A >> A, c), ['a~b~,~b~a', 'a~b~,~b~a~,~a~a'], n=2)
 fx('list/separator-int-string', sep(I >> lit(':') >> +A, c), ['1~:~a~b~,~-2~:~b'])
-fx('list/list-char-int', lst(lit('['), A >> I, c, lit(']')), ['[~]', '[~a~1~]', '[~a~1~,~b~-2~]'], n=2)
-fx('list/list-of-lists', lst(lit('['), lst(lit('('), A, c, lit(')')), c, lit(']')), ['[~(~a~,~b~)~,~(~)~]', '[~]'])
-fx('list/brackets-separator', lit('[') >> sep(A >> A, c) >> lit(']'), ['[~a~b~,~b~b~]', '[~]'])
+fx('list/list-char-int', lst(lit('['), A >> I, c, lit(']')), ['[~]', '[~a~1~]', '[~a~1~,~b~-2~]'])
 fx('list/separator-variant', sep(a | I, c), ['a~,~1~,~a'], alphabet=['a', '1', '-', ','])
-fx('list/separator-string-sep', sep(A, s_('::')), ['a~::~b'], alphabet=['a', 'b', ':', '::'])
-fx('list/two-lists', lst(lit('['), A, c, lit(']')) >> lst(lit('['), I, c, lit(']')), ['[~a~,~b~]~[~1~,~2~]', '[~]~[~]'])
 fx('list/separator-triple-then', sep(A >> A >> A, c) >> lit(';') >> A, ['a~b~a~,~b~b~b~;~a', ';~b'])
 
 # ---- converters
 fx('conv/as_struct3', as_struct(st('st3', CH, CH, CH), 'st3', A >> A >> A), ['a~b~b', 'b~a~b'], n=2)
 fx('conv/as_struct2-char-int', as_struct(st('st2', CH, INT), 'st2', A >> c >> I), ['a~,~12'])
-fx('conv/as_struct5', as_struct(st('st5', CH, CH, CH, CH, CH), 'st5', A >> A >> A >> A >> A), ['a~b~b~a~b'], n=2)
+fx('conv/as_struct5', as_struct(st('st5', CH, CH, CH, CH, CH), 'st5', A >> A >> A >> A >> A), ['a~b~b~a~b'])
 fx('conv/as_struct4-units-between', as_struct(st('st4', CH, CH, CH, CH), 'st4', A >> c >> A >> A >> c >> A), ['a~,~b~a~,~a'])
-fx('conv/as_struct-class', as_struct(Ty('c02s::pt', 'T::st("pt")'), 'pt', I >> c >> I), ['1~,~-2'], n=2)
+fx('conv/as_struct-class', as_struct(Ty('c02s::pt', 'T::st("pt")'), 'pt', I >> c >> I), ['1~,~-2'])
 fx('conv/as_struct-nested', as_struct(st('st2', opt(CH), vec(tup(CH, CH))), 'st2', -a >> rep(b >> A)), ['a~b~a~b~b', 'b~a', ''])
 fx('conv/construct', construct(st('box', CH), 'box', A) >> construct(st('box', INT), 'box', I), ['a~12'])
-fx('conv/construct-tuple', construct(st('box', tup(CH, CH)), 'box', A >> A) >> A, ['a~b~a'])
 fx('conv/cat2', conv('cat2', A >> A) >> A, ['a~b~a'])
 fx('conv/mix', conv('mix', I >> c >> I), ['1~,~2', '-12~,~1'])
-fx('conv/rev-flattened', conv('rev', A >> I) >> A, ['a~1~b'], n=2)
+fx('conv/rev-flattened', conv('rev', A >> I) >> A, ['a~1~b'])
 fx('conv/show', conv('show', (a | I) >> -(b >> b) >> rep(a >> c >> U)), ['a~b~b~a~,~1~a~,~2', '-1'])
 fx('conv/convert_if', convif('even', I) >> c >> convif('nota', A), ['2~,~b', '1~,~b', '2~,~a'])
-fx('conv/convert_if-string', convif('short2', +A) >> c >> rep(A), ['a~b~,~a~a~a', 'a~a~a~,'])
 fx('conv/ignore', ignore(A >> A) >> A, ['a~b~a'])
 fx('conv/const', (const(lit('a'), '7', INT, "V::num('i', 7)") | const(lit('b'), '8', INT, "V::num('i', 8)")) >>
    (const(s_('tt'), 'true', BOOL, 'V::boolean(true)') | const(s_('ff'), 'false', BOOL, 'V::boolean(false)') | I),
@@ -437,18 +408,14 @@ fx('conv/const-structs', const(lit('n'), 'c02s::null_{}', Ty('c02s::null_', 'T::
 fx('conv/named', named(A >> A) >> A, ['a~b~a'])
 fx('conv/recursive', recursive(A) >> recursive(A >> A), ['a~b~a'])
 fx('conv/get', conv('get2', A >> A >> A) >> conv('get0', A >> I), ['a~a~b~a~12'])
-fx('conv/lexeme', lexeme(A >> A) >> A, ['ab~a'], worlds=['c.space', 'w.repseteps'])
-fx('conv/lexeme-in-repetition', rep(lexeme(A >> c >> A)), ['a,b~b,a'], worlds=['w.space', 'c.set1'])
-fx('conv/fatal', lit('a') >> fatal(A >> A) | b >> b, ['a~a~b', 'b~b'], n=2)
-fx('conv/fatal-in-optional-and-repetition', -(lit('a') >> fatal(b)) >> rep(lit(',') >> fatal(A)), ['a~b~,~a~,~b', ',~b'], n=2)
+fx('conv/lexeme', lexeme(A >> A) >> A, ['ab~a'], worlds=['c.space'])
+fx('conv/lexeme-in-repetition', rep(lexeme(A >> c >> A)), ['a,b~b,a'], worlds=['w.repseteps'])
+fx('conv/fatal', lit('a') >> fatal(A >> A) | b >> b, ['a~a~b', 'b~b'])
+fx('conv/fatal-in-optional-and-repetition', -(lit('a') >> fatal(b)) >> rep(lit(',') >> fatal(A)), ['a~b~,~a~,~b', ',~b'])
 fx('conv/fail', (fail(INT) | I) >> A >> (fail(CH) | b), ['1~a~b'])
-fx('conv/base', base(A >> A) >> base(c) >> A, ['a~b~,~a'], n=2)
+fx('conv/base', base(A >> A) >> base(c) >> A, ['a~b~,~a'])
 fx('conv/narrow-aliases', nlit('[') >> ncs('ab') >> ns_('ab') >> nch_() >> nlit(']'), ['[~a~ab~x~]'], alphabet=['[', ']', 'a', 'b', 'ab', 'x'])
-fx('conv/dup-flattened', conv('dup', A) >> A, ['a~b'])
-fx('conv/size', conv('size', rep(a)) >> conv('size', rep(b >> b)), ['a~a~b~b', 'b~b~b~b'])
-fx('conv/neg', conv('neg', I) >> c >> I, ['1~,~2'])
 fx('conv/complement', ~cs('a') >> ~cs('b,') >> ch_(), ['b~a~x'], alphabet=['a', 'b', ',', 'x'])
-fx('conv/floats', F >> c >> F, ['1.5~,~-2.25'], alphabet=['1', '.', '.5', ',', '-'])
 
 # ---- grammar classes with typed, mutually recursive rules
 # (1) the grammar of examples/parse/grammar.cpp
@@ -485,7 +452,7 @@ R = Rules(node=TREE, kids=KIDS)
 gfx('grammar/tree', 'grammar', TREE,
     [('node', TREE, as_struct(TREE, 'tree', A >> R.ref('kids'))),
      ('kids', KIDS, lst(lit('('), recursive(R.ref('node')), lit(','), lit(')')) | const(eps(), 'tree_kids<Ch>{}', KIDS, 'V::vec({})'))],
-    ['a~(~b~,~a~(~b~)~)', 'b', 'a~(~)'], ['c.space', 'w.eps'], ['a', 'b', '(', ')', ','], PRE_TREE)
+    ['a~(~b~,~a~(~b~)~)', 'b', 'a~(~)'], ['w.eps'], ['a', 'b', '(', ')', ','], PRE_TREE)
 
 # (3) s-expressions: a variant that refers to itself through a recursive struct
 PRE_SEXP = r'''
@@ -503,7 +470,7 @@ R = Rules(atom=SV, group=SX)
 gfx('grammar/sexp', 'grammar', SV,
     [('atom', SV, A | I | recursive(R.ref('group'))),
      ('group', SX, construct(SX, 'sx', lit('(') >> rep(R.ref('atom')) >> lit(')')))],
-    ['(~a~1~(~b~(~)~-2~)~)', 'a', '12', '(~)'], ['c.repseteps', 'w.space'], ['a', 'b', '1', '-', '(', ')'], PRE_SEXP)
+    ['(~a~1~(~b~(~)~-2~)~)', 'a', '12', '(~)'], ['c.repseteps'], ['a', 'b', '1', '-', '(', ')'], PRE_SEXP)
 
 # (4) typed rules without recursion: records
 R = Rules(start=st('st2', vec(tup(CH, INT)), opt(CH)), pair=tup(CH, INT), pairs=vec(tup(CH, INT)))
@@ -511,7 +478,7 @@ gfx('grammar/records', 'grammar', st('st2', vec(tup(CH, INT)), opt(CH)),
     [('start', st('st2', vec(tup(CH, INT)), opt(CH)), as_struct(st('st2', vec(tup(CH, INT)), opt(CH)), 'st2', R.ref('pairs') >> lit(';') >> -A)),
      ('pair', tup(CH, INT), A >> lit('=') >> I),
      ('pairs', vec(tup(CH, INT)), sep(R.ref('pair'), c))],
-    ['a~=~1~,~b~=~-2~;~a', ';', 'a~=~1~;'], ['w.space', 'c.replit'], ['a', 'b', '=', '1', '-', ',', ';'])
+    ['a~=~1~,~b~=~-2~;~a', ';', 'a~=~1~;'], ['w.replit'], ['a', 'b', '=', '1', '-', ',', ';'])
 
 # (5) the JSON grammar of test/parse/json.cpp (a plain class with base_unique_ptr members)
 PRE_JSON = r'''
@@ -568,7 +535,7 @@ gfx('grammar/json', 'members', JSTART,
     ['[~]', '[~1~]', '[~null~]', '[~true~,~false~]', '[~"te st"~]', '{~}', '{~"XY"~:~42~}',
      '{~"X"~:~true~,~"Y"~:~[~10~,~false~,~null~]~,~"Z"~:~{~"A"~:~"test"~,~"B"~:~20~}~}',
      '{~"a"~:~1~,~"a"~:~2~}', '[~[~[~]~,~{~}~]~,~-7~]', '[~"a"~,~{~"b"~:~[~]~}~]'],
-    ['c.space', 'w.space'], ['[', ']', '{', '}', ',', ':', '"a"', '"b"', '1', 'true', 'null', '-', '"'], PRE_JSON)
+    ['c.space'], ['[', ']', '{', '}', ',', ':', '"a"', '"b"', '1', 'true', 'null', '-', '"'], PRE_JSON)
 
 
 # --------------------------------------------------------------------------------------------- emission
@@ -589,7 +556,9 @@ def world_args(w):
     return ('char' if chn == 'c' else 'wchar_t'), 'SK::' + skn
 
 
-def emit_fixture(f):
+def emit_fixture(f, worlds):
+    """definitions of one fixture and its registration for the given worlds (a fixture that runs in several
+    worlds is registered once per translation unit it occurs in; c02_static.cpp merges the entries by name)"""
     i = ident(f.name)
     out = []
     reg = []
@@ -600,7 +569,7 @@ def emit_fixture(f):
         out.append('template <class Ch, SK S>\nauto fx_%s()\n{\n  using Sk [[maybe_unused]] = c02s::skipper_t<Ch, S>;\n  return %s;\n}\n' % (i, f.expr.cpp))
         reg.append('    f.text = %s;' % qs(f.expr.cpp))
         reg.append('    f.rules.push_back(c02s::rule{"start", false, c02s::Ty{}, %s});' % f.expr.ast)
-        for w in f.worlds:
+        for w in worlds:
             chn, skn = world_args(w)
             reg.append('    f.worlds.push_back(c02s::world_of<%s, %s>(fx_%s<%s, %s>()));' % (chn, skn, i, chn, skn))
     else:
@@ -623,7 +592,7 @@ def emit_fixture(f):
         reg.append('    f.text = %s;' % qs(' ; '.join('%s = %s' % (n, e.cpp) for n, _, e in f.rules)))
         for n, t, e in f.rules:
             reg.append('    f.rules.push_back(c02s::rule{%s, true, %s, %s});' % (qs(n), t.ref, e.ast))
-        for w in f.worlds:
+        for w in worlds:
             chn, skn = world_args(w)
             reg.append('    f.worlds.push_back(c02s::world_of_%s<%s, %s, %s<%s, %s>>());'
                        % ('grammar' if f.style == 'grammar' else 'members', chn, skn, cls, chn, skn))
@@ -641,33 +610,64 @@ def write_if_changed(path, content):
         f.write(content)
 
 
-NTU = 20
+TARGET_WEIGHT = 125  # per translation unit (a fixture-world weighs its node count plus a constant)
+
+
+def plan():
+    """translation units: the fixture-worlds of ONE (character type, skipper) world go together, so that the
+    instantiations of the leaf parsers for that world are shared; big worlds are split"""
+    units = {}
+    for f in FIXTURES:
+        for w in f.worlds:
+            units.setdefault(w, []).append(f)
+    tus = []
+    for w in sorted(units):
+        fs = sorted(units[w], key=lambda f: f.name)
+        # contiguous chunks of about TARGET_WEIGHT (neighbours in name order are similar grammars); a fixture that
+        # is heavier than that (the JSON grammar) gets a translation unit of its own
+        wgt_of = lambda f: f.weight / len(f.worlds) + 6
+        for f in fs:
+            if wgt_of(f) > TARGET_WEIGHT:
+                tus.append((w, [f]))
+        chunk, acc = [], 0.0
+        for f in fs:
+            wgt = wgt_of(f)
+            if wgt > TARGET_WEIGHT:
+                continue
+            if chunk and acc + wgt > TARGET_WEIGHT * 1.15:
+                tus.append((w, chunk))
+                chunk, acc = [], 0.0
+            chunk.append(f)
+            acc += wgt
+        if chunk:
+            wt = lambda fs_: sum(f.weight / len(f.worlds) + 6 for f in fs_)
+            if acc < 40 and tus and tus[-1][0] == w and len(tus[-1][1]) > 1 and wt(tus[-1][1]) <= TARGET_WEIGHT * 1.15:
+                tus[-1][1].extend(chunk)  # too small for a translation unit of its own
+            else:
+                tus.append((w, chunk))
+    return tus
 
 
 def generate(outdir):
     names = [f.name for f in FIXTURES]
     assert len(names) == len(set(names)), 'duplicate fixture name'
-    bins = [[] for _ in range(NTU)]
-    load = [0] * NTU
-    for f in sorted(FIXTURES, key=lambda f: (-f.weight, f.name)):
-        k = load.index(min(load))
-        bins[k].append(f)
-        load[k] += f.weight + 8
+    tus = plan()
     paths = []
-    for k, fs in enumerate(bins):
+    for k, (w, fs) in enumerate(tus):
         defs, regs, pres = [], [], []
-        for f in sorted(fs, key=lambda f: f.name):
-            d, r, pre = emit_fixture(f)
+        for f in fs:
+            d, r, pre = emit_fixture(f, [w])
             defs.append('// ' + '-' * 70 + ' ' + f.name + '\n' + d)
             regs.append(r)
             pres.append(pre)
-        src = HEADER.replace('namespace\n{', ''.join(pres) + 'namespace\n{', 1) + '\n'.join(defs) + '}\n\nvoid c02s_register_%d(std::vector<c02s::fixture> &out)\n{\n%s\n}\n' % (k, '\n'.join(regs))
+        src = HEADER.replace('namespace\n{', ''.join(pres) + 'namespace\n{', 1) + '\n'.join(defs) + \
+            '}\n\n// world %s\nvoid c02s_register_%d(std::vector<c02s::fixture> &out)\n{\n%s\n}\n' % (w, k, '\n'.join(regs))
         path = os.path.join(outdir, 'c02s_fix_%02d.cpp' % k)
         write_if_changed(path, src)
         paths.append(path)
     allsrc = '// GENERATED by harness/gen/c02_fixtures.py - do not edit\n#include <c02_static.hpp>\n'
-    allsrc += ''.join('void c02s_register_%d(std::vector<c02s::fixture> &);\n' % k for k in range(NTU))
-    allsrc += 'void c02s_register_all(std::vector<c02s::fixture> &out)\n{\n' + ''.join('  c02s_register_%d(out);\n' % k for k in range(NTU)) + '}\n'
+    allsrc += ''.join('void c02s_register_%d(std::vector<c02s::fixture> &);\n' % k for k in range(len(tus)))
+    allsrc += 'void c02s_register_all(std::vector<c02s::fixture> &out)\n{\n' + ''.join('  c02s_register_%d(out);\n' % k for k in range(len(tus))) + '}\n'
     path = os.path.join(outdir, 'c02s_all.cpp')
     write_if_changed(path, allsrc)
     paths.append(path)
@@ -685,3 +685,5 @@ if __name__ == '__main__':
     os.makedirs(d, exist_ok=True)
     print(len(FIXTURES), 'fixtures,', sum(len(f.worlds) for f in FIXTURES), 'fixture-worlds')
     print(len(generate(d)), 'files')
+    for w, fs in plan():
+        print(w, len(fs), int(sum(f.weight / len(f.worlds) + 6 for f in fs)))
